@@ -69,3 +69,33 @@ global verif_cpu_tab_ptr:function
 verif_cpu_tab_ptr:
 	lea	rax, [verif_cpu_tab]
 	ret
+
+;; void verif_call_with_regs(void (*fn)(void), const uint64_t in[6], uint64_t out[6])
+;; calls a resolver with chosen values in the six integer argument registers and reports what they hold afterwards
+global verif_call_with_regs:function
+verif_call_with_regs:
+	push	rbx
+	push	r12
+	push	r13
+	mov	r12, rdi
+	mov	r13, rdx
+	mov	rbx, rsi
+	mov	rdi, [rbx]
+	mov	rsi, [rbx+8]
+	mov	rdx, [rbx+16]
+	mov	rcx, [rbx+24]
+	mov	r8, [rbx+32]
+	mov	r9, [rbx+40]
+	call	r12
+	mov	[r13], rdi
+	mov	[r13+8], rsi
+	mov	[r13+16], rdx
+	mov	[r13+24], rcx
+	mov	[r13+32], r8
+	mov	[r13+40], r9
+	pop	r13
+	pop	r12
+	pop	rbx
+	ret
+
+section .note.GNU-stack noalloc noexec nowrite progbits
